@@ -64,78 +64,143 @@ theorem tight_munlock {c : Cfg} (hP : 0 < c.P) {m : Mach} {v : PVec} {dp : Perm}
     rw [munlockK_locked hP]
     simp [hn]
 
-/-- flag of the data pages after a lock request on an unlocked block -/
-def lockFlag (m : Mach) (v : PVec) : Bool := decide (v.len ≠ 0) && m.oracle (m.cnt + 1)
+/-- flag of the data pages after a lock request on an unlocked block: set iff the request reached
+the kernel and either succeeded or (leaky variant only) was not undone -/
+def lockFlag (c : Cfg) (m : Mach) (v : PVec) : Bool :=
+  decide (v.len ≠ 0) && m.oracle (m.cnt + 1) && ((mlockK c.P m.k (ptr c v) v.len).2 || !c.undo)
+
+/-- `munlock` on the data pages, whatever their flag was -/
+theorem good_munlockK {P : Nat} (hP : 0 < P) {k : Kernel} {v : PVec} {dp : Perm} {dl : Bool}
+    {R : List Blk} (g : GoodL P k (⟨v, dp, dl⟩ :: R)) :
+    GoodL P (munlockK P k ((v.base + 1) * P) v.len) (⟨v, dp, false⟩ :: R) := by
+  have ho := g.ok _ (List.mem_cons_self)
+  refine good_dataop hP g rfl ?_ ?_
+  · intro i h1 h2
+    simp only [munlockK_perm]
+    rw [munlockK_locked hP]
+    exact ⟨(ho.data i h1 h2).1, by simp [h1, h2]⟩
+  · intro i hn
+    simp only [munlockK_perm]
+    rw [munlockK_locked hP]
+    simp [hn]
+
+theorem good_mlockK {P : Nat} (hP : 0 < P) {k : Kernel} {v : PVec} {dp : Perm} {dl : Bool}
+    {R : List Blk} (g : GoodL P k (⟨v, dp, dl⟩ :: R)) :
+    GoodL P (mlockK P k ((v.base + 1) * P) v.len).1 (⟨v, dp, true⟩ :: R) := by
+  have ho := g.ok _ (List.mem_cons_self)
+  refine good_dataop hP g rfl ?_ ?_
+  · intro i h1 h2
+    simp only [mlockK_perm]
+    rw [mlockK_locked hP]
+    exact ⟨(ho.data i h1 h2).1, by simp [h1, h2]⟩
+  · intro i hn
+    simp only [mlockK_perm]
+    rw [mlockK_locked hP]
+    simp [hn]
 
 theorem good_dryocMlock {c : Cfg} (hP : 0 < c.P) {m : Mach} {v : PVec} {dp : Perm}
     {R : List Blk} (g : GoodL c.P m.k (⟨v, dp, false⟩ :: R)) :
-    GoodL c.P (dryocMlock c m (ptr c v) v.len).1.k (⟨v, dp, lockFlag m v⟩ :: R) ∧
+    GoodL c.P (dryocMlock c m (ptr c v) v.len).1.k (⟨v, dp, lockFlag c m v⟩ :: R) ∧
     ((dryocMlock c m (ptr c v) v.len).2 = true →
       GoodL c.P (dryocMlock c m (ptr c v) v.len).1.k (⟨v, dp, true⟩ :: R)) := by
-  have ho := g.ok _ (List.mem_cons_self)
   unfold dryocMlock lockFlag
-  split
-  · rename_i h0
-    have : ∀ l', GoodL c.P m.k (⟨v, dp, l'⟩ :: R) := by
+  by_cases h0 : v.len = 0
+  · have : ∀ l', GoodL c.P m.k (⟨v, dp, l'⟩ :: R) := by
       intro l'
       refine good_dataop hP g rfl ?_ (fun _ _ => ⟨rfl, rfl⟩)
       intro i h1 h2
       simp only [h0, pagesOf_zero hP] at h2; omega
+    simp only [h0, if_true]
     exact ⟨this _, fun _ => this _⟩
-  split
-  · rename_i h0 hor
-    have : GoodL c.P (mlockK c.P m.k (ptr c v) v.len).1 (⟨v, dp, true⟩ :: R) := by
-      refine good_dataop hP g rfl ?_ ?_
-      · intro i h1 h2
-        simp only [ptr_eq, mlockK_perm]
-        rw [mlockK_locked hP]
-        exact ⟨(ho.data i h1 h2).1, by simp [h1, h2]⟩
-      · intro i hn
-        simp only [ptr_eq, mlockK_perm]
-        rw [mlockK_locked hP]
-        simp [hn]
-    have hd : (decide (v.len ≠ 0) && true) = true := by simp [h0]
-    simp only [hor, hd]
-    exact ⟨this, fun _ => this⟩
-  · rename_i h0 hor
-    simp only [hor]
-    exact ⟨by simpa using g, by simp⟩
+  simp only [h0, if_false]
+  have hd : decide (v.len ≠ 0) = true := by simp [h0]
+  by_cases hor : m.oracle (m.cnt + 1) = true
+  · simp only [hor, if_true, hd, Bool.true_and]
+    have g1 := good_mlockK hP g
+    rw [← ptr_eq] at g1
+    by_cases hk : (mlockK c.P m.k (ptr c v) v.len).2 = true
+    · simp only [hk, if_true, Bool.true_or]
+      exact ⟨g1, fun _ => g1⟩
+    · have hk' : (mlockK c.P m.k (ptr c v) v.len).2 = false := by simpa using hk
+      simp only [hk', Bool.false_or, failedLock]
+      refine ⟨?_, by simp⟩
+      by_cases hu : c.undo = true
+      · simp only [hu, if_true, Bool.not_true]
+        have g2 := good_munlockK hP g1
+        simpa [ptr_eq] using g2
+      · have hu' : c.undo = false := by simpa using hu
+        simp only [hu', Bool.not_false]
+        exact g1
+  · have hor' : m.oracle (m.cnt + 1) = false := by simpa using hor
+    simp only [hor', Bool.and_false, Bool.false_and, failedLock]
+    refine ⟨?_, by simp⟩
+    by_cases hu : c.undo = true
+    · simp only [hu, if_true]
+      have g2 := good_munlockK hP g
+      simpa [ptr_eq] using g2
+    · have hu' : c.undo = false := by simpa using hu
+      simp only [hu']
+      exact g
 
 theorem tight_dryocMlock {c : Cfg} (hP : 0 < c.P) {m : Mach} {v : PVec} {dp : Perm} {dl : Bool}
     {R : List Blk} (t : TightL c.P m.k (⟨v, dp, dl⟩ :: R)) (hl : v.len ≤ v.cap) (p' : Perm) (l' : Bool) :
     TightL c.P (dryocMlock c m (ptr c v) v.len).1.k (⟨v, p', l'⟩ :: R) := by
+  have hfr : ∀ k' : Kernel,
+      (∀ i, ¬ (v.base + 1 ≤ i ∧ i < v.base + 1 + pagesOf c.P v.len) →
+        k'.perm i = m.k.perm i ∧ k'.locked i = m.k.locked i) →
+      TightL c.P k' (⟨v, p', l'⟩ :: R) := fun k' h => tight_dataop hP t hl h
+  have f1 : ∀ i, ¬ (v.base + 1 ≤ i ∧ i < v.base + 1 + pagesOf c.P v.len) →
+      (mlockK c.P m.k (ptr c v) v.len).1.perm i = m.k.perm i ∧
+      (mlockK c.P m.k (ptr c v) v.len).1.locked i = m.k.locked i := by
+    intro i hn
+    simp only [ptr_eq, mlockK_perm]
+    rw [mlockK_locked hP]; simp [hn]
+  have f2 : ∀ k : Kernel, ∀ i, ¬ (v.base + 1 ≤ i ∧ i < v.base + 1 + pagesOf c.P v.len) →
+      (munlockK c.P k (ptr c v) v.len).perm i = k.perm i ∧
+      (munlockK c.P k (ptr c v) v.len).locked i = k.locked i := by
+    intro k i hn
+    simp only [ptr_eq, munlockK_perm]
+    rw [munlockK_locked hP]; simp [hn]
   unfold dryocMlock
   split
   · exact tight_setvec t rfl rfl
   split
-  · refine tight_dataop hP t hl ?_
-    intro i hn
-    simp only [ptr_eq, mlockK_perm]
-    rw [mlockK_locked hP]
-    simp [hn]
-  · exact tight_setvec t rfl rfl
+  · simp only []
+    split
+    · exact hfr _ f1
+    · simp only [failedLock]
+      split
+      · exact hfr _ (fun i hn => by rw [(f2 _ i hn).1, (f2 _ i hn).2]; exact f1 i hn)
+      · exact hfr _ f1
+  · simp only [failedLock]
+    split
+    · exact hfr _ (f2 _)
+    · exact tight_setvec t rfl rfl
 
-/-- a lock request on data pages that are not `PROT_NONE` fails only by refusal -/
+/-- a failed lock request leaves the data pages unlocked: always in the repaired model; in the
+leaky variant only if the pages are not `PROT_NONE` (then it can only have been refused) -/
 theorem dryocMlock_fail_flag {c : Cfg} (hP : 0 < c.P) {m : Mach} {v : PVec} {dp : Perm}
-    {R : List Blk} (g : GoodL c.P m.k (⟨v, dp, false⟩ :: R)) (hdp : dp ≠ .none ∨ v.len = 0)
-    (hf : (dryocMlock c m (ptr c v) v.len).2 = false) : lockFlag m v = false := by
+    {R : List Blk} (g : GoodL c.P m.k (⟨v, dp, false⟩ :: R))
+    (hdp : c.undo = true ∨ dp ≠ .none ∨ v.len = 0)
+    (hf : (dryocMlock c m (ptr c v) v.len).2 = false) : lockFlag c m v = false := by
   have ho := g.ok _ (List.mem_cons_self)
   unfold dryocMlock at hf
   unfold lockFlag
-  split at hf
-  · simp at hf
-  split at hf
-  · rename_i h0 hor
-    have : (mlockK c.P m.k (ptr c v) v.len).2 = true := by
-      rw [ptr_eq, mlockK_ok_iff hP]
-      intro i h1 h2
-      rw [(ho.data i h1 h2).1]
-      rcases hdp with hdp | hdp
-      · exact hdp
+  by_cases h0 : v.len = 0
+  · simp [h0] at hf
+  by_cases hor : m.oracle (m.cnt + 1) = true
+  · by_cases hk : (mlockK c.P m.k (ptr c v) v.len).2 = true
+    · simp [h0, hor, hk] at hf
+    · have hk' : (mlockK c.P m.k (ptr c v) v.len).2 = false := by simpa using hk
+      rcases hdp with hu | hdp | hdp
+      · simp [hk', hu]
+      · exfalso; apply hk
+        rw [ptr_eq, mlockK_ok_iff hP]
+        intro i h1 h2
+        rw [(ho.data i h1 h2).1]; exact hdp
       · exact absurd hdp h0
-    simp [this] at hf
-  · rename_i h0 hor
-    simp [hor]
+  · have hor' : m.oracle (m.cnt + 1) = false := by simpa using hor
+    simp [hor']
 
 /-! ### drops -/
 
@@ -203,7 +268,7 @@ theorem good_lockV {c : Cfg} (hP : 0 < c.P) {m : Mach} {v : PVec} {dp : Perm}
 
 theorem tight_lockV {c : Cfg} (hP : 0 < c.P) {m : Mach} {v : PVec} {dp : Perm}
     {R : List Blk} (t : TightL c.P m.k (⟨v, dp, false⟩ :: R)) (g : GoodL c.P m.k (⟨v, dp, false⟩ :: R))
-    (pm : PM) (hdp : dp ≠ .none ∨ v.len = 0) :
+    (pm : PM) (hdp : c.undo = true ∨ dp ≠ .none ∨ v.len = 0) :
     ((lockV c m v pm).2 = true → TightL c.P (lockV c m v pm).1.k (⟨v, dp, true⟩ :: R)) ∧
     ((lockV c m v pm).2 = false → TightL c.P (lockV c m v pm).1.k R) := by
   have h := good_dryocMlock hP g
@@ -270,7 +335,7 @@ theorem tight_lockedResize {c : Cfg} (hP : 0 < c.P) {m : Mach} {v : PVec} {dl : 
   have g1 := good_vecResize hP g0 n
   have t1 := tight_vecResize (tight_add t ⟨PVec.empty, .rw, false⟩) g0 hP n
   have g2 := good_lockV hP g1 .rw
-  have t2 := tight_lockV hP t1 g1 .rw (Or.inl (by simp))
+  have t2 := tight_lockV hP t1 g1 .rw (Or.inr (Or.inl (by simp)))
   unfold lockedResize
   by_cases hr : (lockV c (vecResize c m PVec.empty n).1 (vecResize c m PVec.empty n).2 .rw).2 = true
   · simp only [hr, if_true]
